@@ -166,7 +166,7 @@ def extra(tier, seed):
             for d in defs:
                 if d.tag.endswith(":twin"):
                     a, b = regs.get("S:" + d.name[:-1]), regs.get("S:" + d.name)
-                    if a and b and not same_up_to_ties(a, b):
+                    if a and b and not same_up_to_ties(a, b, be):
                         what = "reordering the unit attributes changes more than the order of equal-scale units"
                         fails.append(dict(backend=be, original=a, permuted=b, what=what, oracle="FAIL:" + what,
                                           definition="\n".join(d.rust_lines()[0])))
@@ -183,17 +183,21 @@ def def_text(defs, line):
     return ""
 
 
-def rows_of(reg):
+def rows_of(reg, be):
+    from world import amount_value
     head, *rows = reg.split(" | ")
     out = []
     for r in rows:
         ident, name, sym, pf, sc, const = r.split(",")
-        out.append((sc, sym, pf))
+        # units share a scale when the VALUES are equal (`0.5` and `0.50` are one scale, though the decimal
+        # back-end keeps their digit counts apart)
+        key = "-" if sc == "-" else str(amount_value(be, sc))
+        out.append((key, sc, sym, pf))
     return head.split(" ")[0], out
 
 
-def same_up_to_ties(a, b):
-    (na, ra), (nb, rb) = rows_of(a), rows_of(b)
+def same_up_to_ties(a, b, be="f64"):
+    (na, ra), (nb, rb) = rows_of(a, be), rows_of(b, be)
     if na != nb or [r[0] for r in ra] != [r[0] for r in rb]:
         # without reference unit the order is by NAME, and the twin has other names: compare as sets
         if all(r[0] == "-" for r in ra):
